@@ -447,11 +447,12 @@ class Scheduler(Subject):
         node: Node,
     ) -> None:
         """Executes Scheduling logic when a Parallel Loop is started."""
-        task_count = self.get_loop_limit(loop, task_context)
+        # a limit below 1 (a fraction as well) stands for no task at all
+        task_count = int(self.get_loop_limit(loop, task_context))
 
         # generate parallel tasks in petri net
         if task_count > 0:
-            for i in range(int(task_count)):
+            for i in range(task_count):
                 self.petri_net_generator.generate_task_call(
                     parallelTask,
                     task_context,
